@@ -583,12 +583,13 @@ pub fn after_unwind(wd: &World, what: &str) {
     }
     match state::is_tracing().ok() {
         Some(false) => {}
+        _ if !wd.judge_idle_after_unwind.get() => {}
         other => wd.err("C07", "is_tracing_after_unwind", format!("is_tracing_{:?}_after_unwind:{}", other, what), format!("after a panic unwound out of {}, state::is_tracing() = {:?}", what, other)),
     }
     // "the collector is left idle": once the panic has arrived at a top-level API boundary no collection, finalizer or
     // destructor is running, so none of the collector's phase flags may still be set (a stuck flag makes later
     // try_unwrap / finalize_again / Weak::upgrade / collect_cycles calls misbehave). Read through the hook.
-    if !wd.in_callback() {
+    if !wd.in_callback() && wd.judge_idle_after_unwind.get() {
         if let Some((c, f, d)) = verif::state_flags() {
             if c || f || d {
                 wd.err("C07", "collector_not_idle_after_unwind", format!("collector_not_idle_after_unwind:c{}f{}d{}", c as u8, f as u8, d as u8), format!("after a panic unwound out of {} to the top level, the collector still reports collecting={} finalizing={} dropping={}", what, c, f, d));
